@@ -241,3 +241,78 @@ func abandonedPing(rec *vr.Rec, reps int) {
 		_ = cc.Close()
 	}
 }
+
+// answeredAsyncPing: AsyncPing calls on a stream connection whose pongs arrive; the caller never invokes the returned
+// cancel function (the callback has run, there is nothing to cancel). Half of the connections have been told by the peer's
+// capabilities message that it supports block-wise transfer (a go-coap peer never says so, a foreign peer may). After the
+// last callback nothing of the answered pings may be registered on the connection.
+func answeredAsyncPing(rec *vr.Rec, reps int) {
+	for rep := 0; rep < reps; rep++ {
+		peerBlockwise := rep%2 == 0
+		pings := 1 + rep%5
+		c := map[string]any{"scenario": "AsyncPing answered by a pong, returned cancel never called", "transport": "tcp", "peer_announced_blockwise": peerBlockwise, "pings": pings}
+		sc := sim.NewScriptConn()
+		cc, err := sim.NewTCPConn(sc, sim.TCPOpts{})
+		if err != nil {
+			continue
+		}
+		sc.WaitWritten(1, 2*time.Second) // the connection's own capabilities message is out
+		if peerBlockwise {
+			if !sim.AnnounceBlockwise(sc, cc, ref.EncodeTCP(ref.Msg{Code: 7<<5 | 1, Opts: []ref.Opt{{ID: 2, Val: ref.Uint(1152)}, {ID: 4, Val: nil}}})) {
+				rec.Inconclusive("answered pings: the capabilities message was not processed")
+				_ = cc.Close()
+				continue
+			}
+		}
+		answered := 0
+		seen := map[string]bool{}
+		for k := 0; k < pings; k++ {
+			got := make(chan struct{}, 8)
+			if _, err := cc.AsyncPing(func() { got <- struct{}{} }); err != nil {
+				break
+			}
+			// the scripted peer answers the ping it finds on the wire with a pong that echoes its token
+			var ping *ref.Msg
+			sim.WaitFor(2*time.Second, func() bool {
+				ms, perr := ref.ParseTCPStream(sc.Written())
+				if perr != nil {
+					return false
+				}
+				for i := range ms {
+					if ms[i].Code == 7<<5|2 && !seen[string(ms[i].Token)] {
+						ping = &ms[i]
+						return true
+					}
+				}
+				return false
+			})
+			if ping == nil {
+				break
+			}
+			seen[string(ping.Token)] = true
+			sc.Feed(ref.EncodeTCP(ref.Msg{Code: 7<<5 | 3, Token: ping.Token}))
+			select {
+			case <-got:
+				answered++
+			case <-time.After(3 * time.Second):
+			}
+		}
+		if answered != pings {
+			rec.Inconclusive(fmt.Sprintf("answered pings: %d of %d callbacks ran", answered, pings))
+			_ = cc.Close()
+			continue
+		}
+		sz := cc.VerifSizes()
+		sim.WaitFor(time.Second, func() bool {
+			sz = cc.VerifSizes()
+			return sz["token_handlers"] == 0
+		})
+		rec.Eval(fmt.Sprintf("answered-async-ping|%v|%d|%d", peerBlockwise, pings, rep))
+		rec.Count("answered_async_ping_cases", 1)
+		rec.Count("answered_async_pings", int64(answered))
+		if sz["token_handlers"] != 0 {
+			rec.Violation("C13/tcp/ping/answered-ping-leaves-token-handler", fmt.Sprintf("%d AsyncPing calls, every callback has run: %s", pings, sizesStr(sz)), c)
+		}
+		_ = cc.Close()
+	}
+}
